@@ -1,5 +1,6 @@
 import RedactVerif.Generated.Trans
 import RedactVerif.Proofs.Tokens
+import RedactVerif.Proofs.Canon
 /-
 The tie for `internal/markers/markers.go` and `rfmt.EscapeBytes` (helpers.go) by translation. The functions are
 one-liners around two regular expressions; `Generated/Trans.lean` holds them as the translator reads them off /repo on
